@@ -117,11 +117,20 @@ def eval_case(case):
         # the probe parses its own argv only up to the task id; shell-active arg values are fine here
         pr = realrun.Project(sc.root, tasks, case["scripts"], hostile=case.get("hostile"))
         argv = ["run", "//:top"] + (["-j", str(case["jobs"])] if case["jobs"] else [])
-        r = pr.cond(argv, timeout=300)
+        r = pr.cond(argv, timeout=300, stall_check=True)
         evs = pr.events()
         slim = {"tasks": [{k: t[k] for k in ("id", "kind", "deps", "par", "args", "options")} for t in case["tasks"]], "mode": case["mode"], "jobs": case["jobs"],
                 "scripts": {k: {"exit": v["exit"], "steps": [[s[0], s[1], "<%d bytes>" % len(base64.b64decode(s[2]))] if s[0] in ("out",) else s[:2] for s in v["steps"]]} for k, v in case["scripts"].items()}}
         W = {"engine": "E1", "case_summary": slim, "case": case.get("seed_case") or (case if sum(len(v["out"]) + len(v["err"]) for v in case["expect"].values()) < 200000 else None), "result": cli.brief(r)}
+        if r.get("stalled"):
+            # decided on the process states, not on elapsed time: every thread of Conductor and of the task sleeps in an
+            # untimed blocking call, nobody consumed a CPU tick across six samples, and the task is blocked in write()
+            # on the pipe Conductor gave it: the bytes it is writing can never reach the log
+            W["stalled_state"] = r["stalled"]
+            blocked = [x for x in r["stalled"] if len(x) > 2 and str(x[2]).startswith("write")]
+            out["violations"].append({"key": "C10:task-output-pipe-never-drained", "msg": "cond %s: the task is blocked forever in write() on its output pipe (%s) while every Conductor thread sleeps; what it writes (%s) never reaches the log" % (
+                " ".join(argv), blocked[:2], {k: [s0[1], s0[2]] for k, v in slim["scripts"].items() for s0 in v["steps"] if s0[0] == "out"}), "witness": W})
+            return out
         if r["timed_out"]:
             out["inconclusive"].append({"why": "cond run timed out (watchdog)", "detail": cli.brief(r)})
             return out
